@@ -69,6 +69,7 @@ type FuncC struct {
 	Callsites     []*CallsiteC
 	NoSwallow     bool
 	NoSwallowTags []string
+	AssumePure    bool            // purity is assumed, not inferred from the body
 	Nullable      map[string]bool // pointer parameters that may be nil
 	Hints         map[string]bool // proof hints (e.g. appendcopy)
 	Ghosts        []GhostDecl
@@ -318,11 +319,12 @@ func ParseContractFile(path string) (*CFile, error) {
 				return nil, errf(l, "uses outside lemma")
 			}
 			curL.Uses = append(curL.Uses, strings.TrimSpace(strings.TrimPrefix(t, "uses ")))
-		case t == "pure":
+		case t == "pure" || t == "assume-pure":
 			if curF == nil {
 				return nil, errf(l, "pure outside func")
 			}
 			curF.Pure = true
+			curF.AssumePure = t == "assume-pure"
 		case strings.HasPrefix(t, "hint "):
 			if curF == nil {
 				return nil, errf(l, "hint outside func")
